@@ -505,6 +505,14 @@ theorem keyed_step {s : St} (h : Keyed s) (h1 : Pool1 ci s) (op : Op) (hct : con
     | pick call pn m ctx dl req => exact keyed_of_kstep h (kstep_opPick h1.bij call pn m ctx dl req)
     | ctxdone call => exact keyed_of_kstep h (kstep_opCtxDone s call)
     | done call err reply => exact keyed_of_kstep h (kstep_opDone h1 call err reply)
+    | pickHold call pn m ctx dl req =>
+      refine keyed_of_kstep h ?_
+      exact opPickHold_cases (KStep s) s call pn m ctx dl req (KStep.refl s) (fun _ => kstep_of_same ⟨rfl, rfl, rfl⟩)
+        (kstep_opPick h1.bij call pn m ctx dl req)
+    | resume call =>
+      refine keyed_of_kstep h ?_
+      exact opResume_cases (KStep s) s call (KStep.refl s) (fun _ => kstep_of_same ⟨rfl, rfl, rfl⟩)
+        (fun hl _ _ _ => (show KStep s { s with held := hl } from kstep_of_same ⟨rfl, rfl, rfl⟩).trans (kstep_newSubConn _))
   unfold step
   generalize stepCore s op = r at hc ⊢
   obtain ⟨s1, ev⟩ := r
@@ -968,6 +976,23 @@ theorem stable_step {s : St} (h : Keyed s) (h1 : Pool1 ci s) (op : Op) (hct : co
       | other => left; simp
       | deClient => left; simp
       | deServer => left; simp
+    | pickHold call pn m ctx dl req =>
+      have he : Ext2 s (opPickHold s call pn m ctx dl req).1 :=
+        opPickHold_cases (Ext2 s) s call pn m ctx dl req (Ext2.refl s) (fun _ => ext2_of_same rfl rfl)
+          (ext2_opPick h1.tab call pn m ctx dl req)
+      have hk : KStep s (opPickHold s call pn m ctx dl req).1 :=
+        opPickHold_cases (KStep s) s call pn m ctx dl req (KStep.refl s) (fun _ => kstep_of_same ⟨rfl, rfl, rfl⟩)
+          (kstep_opPick h1.bij call pn m ctx dl req)
+      exact ⟨stable_of_ext2 h he key, keyed_of_kstep h hk⟩
+    | resume call =>
+      have he : Ext2 s (opResume s call).1 :=
+        opResume_cases (Ext2 s) s call (Ext2.refl s) (fun _ => ext2_of_same rfl rfl)
+          (fun hl _ _ _ => (show Ext2 s { s with held := hl } from ext2_of_same rfl rfl).trans
+            (ext2_newSubConn (tables_of_same h1.tab ⟨rfl, rfl, rfl, rfl, rfl, rfl, rfl⟩)))
+      have hk : KStep s (opResume s call).1 :=
+        opResume_cases (KStep s) s call (KStep.refl s) (fun _ => kstep_of_same ⟨rfl, rfl, rfl⟩)
+          (fun hl _ _ _ => (show KStep s { s with held := hl } from kstep_of_same ⟨rfl, rfl, rfl⟩).trans (kstep_newSubConn _))
+      exact ⟨stable_of_ext2 h he key, keyed_of_kstep h hk⟩
   unfold step
   generalize stepCore s op = r at hc ⊢
   obtain ⟨s1, ev⟩ := r
